@@ -225,3 +225,61 @@ Proof.
     assert (B : own =? 65535 = false) by (apply Z.eqb_neq; exact Hnb). rewrite B, Z.eqb_refl. cbn [andb negb].
     rewrite SL, NC, N1, C64, C32, C16, Cfc, ?Z.eqb_refl. cbn [andb negb]. rewrite ?Z.eqb_refl. cbn [negb]. reflexivity.
 Qed.
+
+(* a frame for another station (not the broadcast address) is ignored by the unbalanced secondary *)
+Theorem parse_su_fixed_other : forall ff alen own other fc dir fcb fcv, 0 <= alen <= 2 ->
+  addr_in_range alen own -> addr_in_range alen other -> other <> broadcast_addr alen -> other <> own ->
+  parse_su ff alen own (enc_fixed alen fc other true dir fcb fcv) = SuIgnore.
+Proof.
+  intros ff alen own other fc dir fcb fcv H Ho Hr Hnb Hne.
+  pose proof (addr_dec alen other H Hr) as Hd.
+  unfold enc_fixed, addr_octets, broadcast_addr, addr_in_range in *. cbv zeta. set (c := ctrl fc true dir fcb fcv) in *.
+  alen_cases H; numsimp; cbn [app].
+  - exfalso. lia.
+  - destruct Hd as [_ Hd]. rewrite Hd.
+    match goal with |- parse_su _ _ _ ?f = _ => assert (N0 : nthz f 0 = 16) by reflexivity; assert (N2 : nthz f (1 + 1) = other) by reflexivity end.
+    unfold parse_su. cbv zeta. rewrite N0. bp_consts. numsimp. rewrite N2.
+    assert (B : other =? 255 = false) by (apply Z.eqb_neq; exact Hnb). assert (B2 : other =? own = false) by (apply Z.eqb_neq; exact Hne).
+    rewrite B, B2. reflexivity.
+  - destruct Hd as [_ Hd].
+    match goal with |- parse_su _ _ _ ?f = _ => assert (N0 : nthz f 0 = 16) by reflexivity;
+      assert (N2 : nthz f (1 + 1) = other mod 256) by reflexivity; assert (N3 : nthz f (1 + 2) = (other / 256) mod 256) by reflexivity end.
+    unfold parse_su. cbv zeta. rewrite N0. bp_consts. numsimp. rewrite N2, N3, Hd.
+    assert (B : other =? 65535 = false) by (apply Z.eqb_neq; exact Hnb). assert (B2 : other =? own = false) by (apply Z.eqb_neq; exact Hne).
+    rewrite B, B2. reflexivity.
+Qed.
+
+Theorem parse_su_var_other : forall ff alen own other fc dir fcb fcv data f, 0 <= alen <= 2 ->
+  addr_in_range alen own -> addr_in_range alen other -> other <> broadcast_addr alen -> other <> own ->
+  enc_var alen fc other true dir fcb fcv data = Some f -> parse_su ff alen own f = SuIgnore.
+Proof.
+  intros ff alen own other fc dir fcb fcv data f H Ho Hr Hnb Hne E.
+  unfold enc_var in E. cbv zeta in E. destruct (1 + alen + lenz data >? 255) eqn:L; [discriminate|].
+  set (c := ctrl fc true dir fcb fcv) in *. set (l := 1 + alen + lenz data) in *.
+  pose proof (lenz_nonneg data) as Hd0. pose proof (addr_dec alen other H Hr) as Hd.
+  assert (Hudl : forall a, l = 1 + a + lenz data -> (ff && (l - a - 1 <? 0)) = false).
+  { intros a Hl. assert (X : l - a - 1 <? 0 = false) by (apply Z.ltb_ge; lia). rewrite X. apply andb_false_r. }
+  assert (Hsz : forall a, l = 1 + a + lenz data -> (l + 6 =? 5 + a + (l - a - 1) + 2) = true) by (intros; apply Z.eqb_eq; lia).
+  unfold broadcast_addr, addr_in_range in *.
+  alen_cases H; numsimp; unfold addr_octets in E, Hd; numsimp.
+  - exfalso. lia.
+  - destruct Hd as [_ Hd]. set (a0 := other mod 256) in *.
+    assert (Ef : f = [104; l; l; 104] ++ (c :: a0 :: data) ++ [cs8 (c :: a0 :: data); 22]) by (injection E; intro X; rewrite <- X; reflexivity). clear E.
+    assert (N0 : nthz f 0 = 104) by (rewrite Ef; reflexivity). assert (N1 : nthz f 1 = l) by (rewrite Ef; reflexivity).
+    assert (N2 : nthz f 2 = l) by (rewrite Ef; reflexivity). assert (N5 : nthz f (4 + 1) = a0) by (rewrite Ef; reflexivity).
+    assert (Lf : lenz f = l + 6) by (rewrite Ef; lz; unfold l; lia).
+    unfold parse_su. cbv zeta. rewrite N0. bp_consts. rewrite N1, N2, Z.eqb_refl. cbn [negb]. rewrite Lf, (Hudl 1 eq_refl), (Hsz 1 eq_refl). cbn [negb]. cbv beta iota.
+    numsimp. rewrite N5, Hd.
+    assert (B : other =? 255 = false) by (apply Z.eqb_neq; exact Hnb). assert (B2 : other =? own = false) by (apply Z.eqb_neq; exact Hne).
+    rewrite B, B2. reflexivity.
+  - destruct Hd as [_ Hd]. set (a0 := other mod 256) in *. set (a1 := (other / 256) mod 256) in *.
+    assert (Ef : f = [104; l; l; 104] ++ (c :: a0 :: a1 :: data) ++ [cs8 (c :: a0 :: a1 :: data); 22]) by (injection E; intro X; rewrite <- X; reflexivity). clear E.
+    assert (N0 : nthz f 0 = 104) by (rewrite Ef; reflexivity). assert (N1 : nthz f 1 = l) by (rewrite Ef; reflexivity).
+    assert (N2 : nthz f 2 = l) by (rewrite Ef; reflexivity). assert (N5 : nthz f (4 + 1) = a0) by (rewrite Ef; reflexivity).
+    assert (N6 : nthz f (4 + 2) = a1) by (rewrite Ef; reflexivity).
+    assert (Lf : lenz f = l + 6) by (rewrite Ef; lz; unfold l; lia).
+    unfold parse_su. cbv zeta. rewrite N0. bp_consts. rewrite N1, N2, Z.eqb_refl. cbn [negb]. rewrite Lf, (Hudl 2 eq_refl), (Hsz 2 eq_refl). cbn [negb]. cbv beta iota.
+    numsimp. rewrite N5, N6, Hd.
+    assert (B : other =? 65535 = false) by (apply Z.eqb_neq; exact Hnb). assert (B2 : other =? own = false) by (apply Z.eqb_neq; exact Hne).
+    rewrite B, B2. reflexivity.
+Qed.
